@@ -120,7 +120,7 @@ Record trec := mkT {
   t_rem : list ch         (* raced items still to be removed *)
 }.
 
-Inductive kpc := KCheck | KAuth | KFinal | KTrigLock | KTrigCheck | KHandler | KSet.
+Inductive kpc := KCheck | KAuth | KFinal | KTrigLock | KTrigCheck | KEnter | KHandler | KSet.
 
 Inductive thread :=
 | TAtt (a : att) | TUns (u : urec) | TCls (k : crec) | TTck (t : trec) | TCon (pc : kpc) | TJob (c : ch).
@@ -154,67 +154,73 @@ Record st := mkSt {
   next_int : N;
   panicked : bool;
   wclosed : bool;
+  hreg : bool;
+  shut : bool;
   gst : gen -> gstate
 }.
 
 Definition set_status (v : status_t) (s : st) : st :=
-  mkSt v (authed s) (closing s) (chans s) (genctr s) (gclosed s) (cmu s) (pmu s) (pinfl s) (kstarted s) (slock s) (hub s) (others s) (reg s) (pres s) (bsub s) (jobs s) (gconn s) (gsub s) (trace s) (thr s) (next_ext s) (next_int s) (panicked s) (wclosed s) (gst s).
+  mkSt v (authed s) (closing s) (chans s) (genctr s) (gclosed s) (cmu s) (pmu s) (pinfl s) (kstarted s) (slock s) (hub s) (others s) (reg s) (pres s) (bsub s) (jobs s) (gconn s) (gsub s) (trace s) (thr s) (next_ext s) (next_int s) (panicked s) (wclosed s) (hreg s) (shut s) (gst s).
 Definition set_authed (v : bool) (s : st) : st :=
-  mkSt (status s) v (closing s) (chans s) (genctr s) (gclosed s) (cmu s) (pmu s) (pinfl s) (kstarted s) (slock s) (hub s) (others s) (reg s) (pres s) (bsub s) (jobs s) (gconn s) (gsub s) (trace s) (thr s) (next_ext s) (next_int s) (panicked s) (wclosed s) (gst s).
+  mkSt (status s) v (closing s) (chans s) (genctr s) (gclosed s) (cmu s) (pmu s) (pinfl s) (kstarted s) (slock s) (hub s) (others s) (reg s) (pres s) (bsub s) (jobs s) (gconn s) (gsub s) (trace s) (thr s) (next_ext s) (next_int s) (panicked s) (wclosed s) (hreg s) (shut s) (gst s).
 Definition set_closing (v : bool) (s : st) : st :=
-  mkSt (status s) (authed s) v (chans s) (genctr s) (gclosed s) (cmu s) (pmu s) (pinfl s) (kstarted s) (slock s) (hub s) (others s) (reg s) (pres s) (bsub s) (jobs s) (gconn s) (gsub s) (trace s) (thr s) (next_ext s) (next_int s) (panicked s) (wclosed s) (gst s).
+  mkSt (status s) (authed s) v (chans s) (genctr s) (gclosed s) (cmu s) (pmu s) (pinfl s) (kstarted s) (slock s) (hub s) (others s) (reg s) (pres s) (bsub s) (jobs s) (gconn s) (gsub s) (trace s) (thr s) (next_ext s) (next_int s) (panicked s) (wclosed s) (hreg s) (shut s) (gst s).
 Definition set_chans (v : amap ctx) (s : st) : st :=
-  mkSt (status s) (authed s) (closing s) v (genctr s) (gclosed s) (cmu s) (pmu s) (pinfl s) (kstarted s) (slock s) (hub s) (others s) (reg s) (pres s) (bsub s) (jobs s) (gconn s) (gsub s) (trace s) (thr s) (next_ext s) (next_int s) (panicked s) (wclosed s) (gst s).
+  mkSt (status s) (authed s) (closing s) v (genctr s) (gclosed s) (cmu s) (pmu s) (pinfl s) (kstarted s) (slock s) (hub s) (others s) (reg s) (pres s) (bsub s) (jobs s) (gconn s) (gsub s) (trace s) (thr s) (next_ext s) (next_int s) (panicked s) (wclosed s) (hreg s) (shut s) (gst s).
 Definition set_genctr (v : N) (s : st) : st :=
-  mkSt (status s) (authed s) (closing s) (chans s) v (gclosed s) (cmu s) (pmu s) (pinfl s) (kstarted s) (slock s) (hub s) (others s) (reg s) (pres s) (bsub s) (jobs s) (gconn s) (gsub s) (trace s) (thr s) (next_ext s) (next_int s) (panicked s) (wclosed s) (gst s).
+  mkSt (status s) (authed s) (closing s) (chans s) v (gclosed s) (cmu s) (pmu s) (pinfl s) (kstarted s) (slock s) (hub s) (others s) (reg s) (pres s) (bsub s) (jobs s) (gconn s) (gsub s) (trace s) (thr s) (next_ext s) (next_int s) (panicked s) (wclosed s) (hreg s) (shut s) (gst s).
 Definition set_gclosed (v : gen -> bool) (s : st) : st :=
-  mkSt (status s) (authed s) (closing s) (chans s) (genctr s) v (cmu s) (pmu s) (pinfl s) (kstarted s) (slock s) (hub s) (others s) (reg s) (pres s) (bsub s) (jobs s) (gconn s) (gsub s) (trace s) (thr s) (next_ext s) (next_int s) (panicked s) (wclosed s) (gst s).
+  mkSt (status s) (authed s) (closing s) (chans s) (genctr s) v (cmu s) (pmu s) (pinfl s) (kstarted s) (slock s) (hub s) (others s) (reg s) (pres s) (bsub s) (jobs s) (gconn s) (gsub s) (trace s) (thr s) (next_ext s) (next_int s) (panicked s) (wclosed s) (hreg s) (shut s) (gst s).
 Definition set_cmu (v : bool) (s : st) : st :=
-  mkSt (status s) (authed s) (closing s) (chans s) (genctr s) (gclosed s) v (pmu s) (pinfl s) (kstarted s) (slock s) (hub s) (others s) (reg s) (pres s) (bsub s) (jobs s) (gconn s) (gsub s) (trace s) (thr s) (next_ext s) (next_int s) (panicked s) (wclosed s) (gst s).
+  mkSt (status s) (authed s) (closing s) (chans s) (genctr s) (gclosed s) v (pmu s) (pinfl s) (kstarted s) (slock s) (hub s) (others s) (reg s) (pres s) (bsub s) (jobs s) (gconn s) (gsub s) (trace s) (thr s) (next_ext s) (next_int s) (panicked s) (wclosed s) (hreg s) (shut s) (gst s).
 Definition set_pmu (v : bool) (s : st) : st :=
-  mkSt (status s) (authed s) (closing s) (chans s) (genctr s) (gclosed s) (cmu s) v (pinfl s) (kstarted s) (slock s) (hub s) (others s) (reg s) (pres s) (bsub s) (jobs s) (gconn s) (gsub s) (trace s) (thr s) (next_ext s) (next_int s) (panicked s) (wclosed s) (gst s).
+  mkSt (status s) (authed s) (closing s) (chans s) (genctr s) (gclosed s) (cmu s) v (pinfl s) (kstarted s) (slock s) (hub s) (others s) (reg s) (pres s) (bsub s) (jobs s) (gconn s) (gsub s) (trace s) (thr s) (next_ext s) (next_int s) (panicked s) (wclosed s) (hreg s) (shut s) (gst s).
 Definition set_pinfl (v : bool) (s : st) : st :=
-  mkSt (status s) (authed s) (closing s) (chans s) (genctr s) (gclosed s) (cmu s) (pmu s) v (kstarted s) (slock s) (hub s) (others s) (reg s) (pres s) (bsub s) (jobs s) (gconn s) (gsub s) (trace s) (thr s) (next_ext s) (next_int s) (panicked s) (wclosed s) (gst s).
+  mkSt (status s) (authed s) (closing s) (chans s) (genctr s) (gclosed s) (cmu s) (pmu s) v (kstarted s) (slock s) (hub s) (others s) (reg s) (pres s) (bsub s) (jobs s) (gconn s) (gsub s) (trace s) (thr s) (next_ext s) (next_int s) (panicked s) (wclosed s) (hreg s) (shut s) (gst s).
 Definition set_kstarted (v : bool) (s : st) : st :=
-  mkSt (status s) (authed s) (closing s) (chans s) (genctr s) (gclosed s) (cmu s) (pmu s) (pinfl s) v (slock s) (hub s) (others s) (reg s) (pres s) (bsub s) (jobs s) (gconn s) (gsub s) (trace s) (thr s) (next_ext s) (next_int s) (panicked s) (wclosed s) (gst s).
+  mkSt (status s) (authed s) (closing s) (chans s) (genctr s) (gclosed s) (cmu s) (pmu s) (pinfl s) v (slock s) (hub s) (others s) (reg s) (pres s) (bsub s) (jobs s) (gconn s) (gsub s) (trace s) (thr s) (next_ext s) (next_int s) (panicked s) (wclosed s) (hreg s) (shut s) (gst s).
 Definition set_slock (v : ch -> bool) (s : st) : st :=
-  mkSt (status s) (authed s) (closing s) (chans s) (genctr s) (gclosed s) (cmu s) (pmu s) (pinfl s) (kstarted s) v (hub s) (others s) (reg s) (pres s) (bsub s) (jobs s) (gconn s) (gsub s) (trace s) (thr s) (next_ext s) (next_int s) (panicked s) (wclosed s) (gst s).
+  mkSt (status s) (authed s) (closing s) (chans s) (genctr s) (gclosed s) (cmu s) (pmu s) (pinfl s) (kstarted s) v (hub s) (others s) (reg s) (pres s) (bsub s) (jobs s) (gconn s) (gsub s) (trace s) (thr s) (next_ext s) (next_int s) (panicked s) (wclosed s) (hreg s) (shut s) (gst s).
 Definition set_hub (v : ch -> option gen) (s : st) : st :=
-  mkSt (status s) (authed s) (closing s) (chans s) (genctr s) (gclosed s) (cmu s) (pmu s) (pinfl s) (kstarted s) (slock s) v (others s) (reg s) (pres s) (bsub s) (jobs s) (gconn s) (gsub s) (trace s) (thr s) (next_ext s) (next_int s) (panicked s) (wclosed s) (gst s).
+  mkSt (status s) (authed s) (closing s) (chans s) (genctr s) (gclosed s) (cmu s) (pmu s) (pinfl s) (kstarted s) (slock s) v (others s) (reg s) (pres s) (bsub s) (jobs s) (gconn s) (gsub s) (trace s) (thr s) (next_ext s) (next_int s) (panicked s) (wclosed s) (hreg s) (shut s) (gst s).
 Definition set_others (v : ch -> N) (s : st) : st :=
-  mkSt (status s) (authed s) (closing s) (chans s) (genctr s) (gclosed s) (cmu s) (pmu s) (pinfl s) (kstarted s) (slock s) (hub s) v (reg s) (pres s) (bsub s) (jobs s) (gconn s) (gsub s) (trace s) (thr s) (next_ext s) (next_int s) (panicked s) (wclosed s) (gst s).
+  mkSt (status s) (authed s) (closing s) (chans s) (genctr s) (gclosed s) (cmu s) (pmu s) (pinfl s) (kstarted s) (slock s) (hub s) v (reg s) (pres s) (bsub s) (jobs s) (gconn s) (gsub s) (trace s) (thr s) (next_ext s) (next_int s) (panicked s) (wclosed s) (hreg s) (shut s) (gst s).
 Definition set_reg (v : bool) (s : st) : st :=
-  mkSt (status s) (authed s) (closing s) (chans s) (genctr s) (gclosed s) (cmu s) (pmu s) (pinfl s) (kstarted s) (slock s) (hub s) (others s) v (pres s) (bsub s) (jobs s) (gconn s) (gsub s) (trace s) (thr s) (next_ext s) (next_int s) (panicked s) (wclosed s) (gst s).
+  mkSt (status s) (authed s) (closing s) (chans s) (genctr s) (gclosed s) (cmu s) (pmu s) (pinfl s) (kstarted s) (slock s) (hub s) (others s) v (pres s) (bsub s) (jobs s) (gconn s) (gsub s) (trace s) (thr s) (next_ext s) (next_int s) (panicked s) (wclosed s) (hreg s) (shut s) (gst s).
 Definition set_pres (v : ch -> bool) (s : st) : st :=
-  mkSt (status s) (authed s) (closing s) (chans s) (genctr s) (gclosed s) (cmu s) (pmu s) (pinfl s) (kstarted s) (slock s) (hub s) (others s) (reg s) v (bsub s) (jobs s) (gconn s) (gsub s) (trace s) (thr s) (next_ext s) (next_int s) (panicked s) (wclosed s) (gst s).
+  mkSt (status s) (authed s) (closing s) (chans s) (genctr s) (gclosed s) (cmu s) (pmu s) (pinfl s) (kstarted s) (slock s) (hub s) (others s) (reg s) v (bsub s) (jobs s) (gconn s) (gsub s) (trace s) (thr s) (next_ext s) (next_int s) (panicked s) (wclosed s) (hreg s) (shut s) (gst s).
 Definition set_bsub (v : ch -> bool) (s : st) : st :=
-  mkSt (status s) (authed s) (closing s) (chans s) (genctr s) (gclosed s) (cmu s) (pmu s) (pinfl s) (kstarted s) (slock s) (hub s) (others s) (reg s) (pres s) v (jobs s) (gconn s) (gsub s) (trace s) (thr s) (next_ext s) (next_int s) (panicked s) (wclosed s) (gst s).
+  mkSt (status s) (authed s) (closing s) (chans s) (genctr s) (gclosed s) (cmu s) (pmu s) (pinfl s) (kstarted s) (slock s) (hub s) (others s) (reg s) (pres s) v (jobs s) (gconn s) (gsub s) (trace s) (thr s) (next_ext s) (next_int s) (panicked s) (wclosed s) (hreg s) (shut s) (gst s).
 Definition set_jobs (v : list ch) (s : st) : st :=
-  mkSt (status s) (authed s) (closing s) (chans s) (genctr s) (gclosed s) (cmu s) (pmu s) (pinfl s) (kstarted s) (slock s) (hub s) (others s) (reg s) (pres s) (bsub s) v (gconn s) (gsub s) (trace s) (thr s) (next_ext s) (next_int s) (panicked s) (wclosed s) (gst s).
+  mkSt (status s) (authed s) (closing s) (chans s) (genctr s) (gclosed s) (cmu s) (pmu s) (pinfl s) (kstarted s) (slock s) (hub s) (others s) (reg s) (pres s) (bsub s) v (gconn s) (gsub s) (trace s) (thr s) (next_ext s) (next_int s) (panicked s) (wclosed s) (hreg s) (shut s) (gst s).
 Definition set_gconn (v : Z) (s : st) : st :=
-  mkSt (status s) (authed s) (closing s) (chans s) (genctr s) (gclosed s) (cmu s) (pmu s) (pinfl s) (kstarted s) (slock s) (hub s) (others s) (reg s) (pres s) (bsub s) (jobs s) v (gsub s) (trace s) (thr s) (next_ext s) (next_int s) (panicked s) (wclosed s) (gst s).
+  mkSt (status s) (authed s) (closing s) (chans s) (genctr s) (gclosed s) (cmu s) (pmu s) (pinfl s) (kstarted s) (slock s) (hub s) (others s) (reg s) (pres s) (bsub s) (jobs s) v (gsub s) (trace s) (thr s) (next_ext s) (next_int s) (panicked s) (wclosed s) (hreg s) (shut s) (gst s).
 Definition set_gsub (v : ch -> Z) (s : st) : st :=
-  mkSt (status s) (authed s) (closing s) (chans s) (genctr s) (gclosed s) (cmu s) (pmu s) (pinfl s) (kstarted s) (slock s) (hub s) (others s) (reg s) (pres s) (bsub s) (jobs s) (gconn s) v (trace s) (thr s) (next_ext s) (next_int s) (panicked s) (wclosed s) (gst s).
+  mkSt (status s) (authed s) (closing s) (chans s) (genctr s) (gclosed s) (cmu s) (pmu s) (pinfl s) (kstarted s) (slock s) (hub s) (others s) (reg s) (pres s) (bsub s) (jobs s) (gconn s) v (trace s) (thr s) (next_ext s) (next_int s) (panicked s) (wclosed s) (hreg s) (shut s) (gst s).
 Definition set_trace (v : list ev) (s : st) : st :=
-  mkSt (status s) (authed s) (closing s) (chans s) (genctr s) (gclosed s) (cmu s) (pmu s) (pinfl s) (kstarted s) (slock s) (hub s) (others s) (reg s) (pres s) (bsub s) (jobs s) (gconn s) (gsub s) v (thr s) (next_ext s) (next_int s) (panicked s) (wclosed s) (gst s).
+  mkSt (status s) (authed s) (closing s) (chans s) (genctr s) (gclosed s) (cmu s) (pmu s) (pinfl s) (kstarted s) (slock s) (hub s) (others s) (reg s) (pres s) (bsub s) (jobs s) (gconn s) (gsub s) v (thr s) (next_ext s) (next_int s) (panicked s) (wclosed s) (hreg s) (shut s) (gst s).
 Definition set_thr (v : tid -> option thread) (s : st) : st :=
-  mkSt (status s) (authed s) (closing s) (chans s) (genctr s) (gclosed s) (cmu s) (pmu s) (pinfl s) (kstarted s) (slock s) (hub s) (others s) (reg s) (pres s) (bsub s) (jobs s) (gconn s) (gsub s) (trace s) v (next_ext s) (next_int s) (panicked s) (wclosed s) (gst s).
+  mkSt (status s) (authed s) (closing s) (chans s) (genctr s) (gclosed s) (cmu s) (pmu s) (pinfl s) (kstarted s) (slock s) (hub s) (others s) (reg s) (pres s) (bsub s) (jobs s) (gconn s) (gsub s) (trace s) v (next_ext s) (next_int s) (panicked s) (wclosed s) (hreg s) (shut s) (gst s).
 Definition set_next_ext (v : N) (s : st) : st :=
-  mkSt (status s) (authed s) (closing s) (chans s) (genctr s) (gclosed s) (cmu s) (pmu s) (pinfl s) (kstarted s) (slock s) (hub s) (others s) (reg s) (pres s) (bsub s) (jobs s) (gconn s) (gsub s) (trace s) (thr s) v (next_int s) (panicked s) (wclosed s) (gst s).
+  mkSt (status s) (authed s) (closing s) (chans s) (genctr s) (gclosed s) (cmu s) (pmu s) (pinfl s) (kstarted s) (slock s) (hub s) (others s) (reg s) (pres s) (bsub s) (jobs s) (gconn s) (gsub s) (trace s) (thr s) v (next_int s) (panicked s) (wclosed s) (hreg s) (shut s) (gst s).
 Definition set_next_int (v : N) (s : st) : st :=
-  mkSt (status s) (authed s) (closing s) (chans s) (genctr s) (gclosed s) (cmu s) (pmu s) (pinfl s) (kstarted s) (slock s) (hub s) (others s) (reg s) (pres s) (bsub s) (jobs s) (gconn s) (gsub s) (trace s) (thr s) (next_ext s) v (panicked s) (wclosed s) (gst s).
+  mkSt (status s) (authed s) (closing s) (chans s) (genctr s) (gclosed s) (cmu s) (pmu s) (pinfl s) (kstarted s) (slock s) (hub s) (others s) (reg s) (pres s) (bsub s) (jobs s) (gconn s) (gsub s) (trace s) (thr s) (next_ext s) v (panicked s) (wclosed s) (hreg s) (shut s) (gst s).
 Definition set_panicked (v : bool) (s : st) : st :=
-  mkSt (status s) (authed s) (closing s) (chans s) (genctr s) (gclosed s) (cmu s) (pmu s) (pinfl s) (kstarted s) (slock s) (hub s) (others s) (reg s) (pres s) (bsub s) (jobs s) (gconn s) (gsub s) (trace s) (thr s) (next_ext s) (next_int s) v (wclosed s) (gst s).
+  mkSt (status s) (authed s) (closing s) (chans s) (genctr s) (gclosed s) (cmu s) (pmu s) (pinfl s) (kstarted s) (slock s) (hub s) (others s) (reg s) (pres s) (bsub s) (jobs s) (gconn s) (gsub s) (trace s) (thr s) (next_ext s) (next_int s) v (wclosed s) (hreg s) (shut s) (gst s).
 Definition set_wclosed (v : bool) (s : st) : st :=
-  mkSt (status s) (authed s) (closing s) (chans s) (genctr s) (gclosed s) (cmu s) (pmu s) (pinfl s) (kstarted s) (slock s) (hub s) (others s) (reg s) (pres s) (bsub s) (jobs s) (gconn s) (gsub s) (trace s) (thr s) (next_ext s) (next_int s) (panicked s) v (gst s).
+  mkSt (status s) (authed s) (closing s) (chans s) (genctr s) (gclosed s) (cmu s) (pmu s) (pinfl s) (kstarted s) (slock s) (hub s) (others s) (reg s) (pres s) (bsub s) (jobs s) (gconn s) (gsub s) (trace s) (thr s) (next_ext s) (next_int s) (panicked s) v (hreg s) (shut s) (gst s).
+Definition set_hreg (v : bool) (s : st) : st :=
+  mkSt (status s) (authed s) (closing s) (chans s) (genctr s) (gclosed s) (cmu s) (pmu s) (pinfl s) (kstarted s) (slock s) (hub s) (others s) (reg s) (pres s) (bsub s) (jobs s) (gconn s) (gsub s) (trace s) (thr s) (next_ext s) (next_int s) (panicked s) (wclosed s) v (shut s) (gst s).
+Definition set_shut (v : bool) (s : st) : st :=
+  mkSt (status s) (authed s) (closing s) (chans s) (genctr s) (gclosed s) (cmu s) (pmu s) (pinfl s) (kstarted s) (slock s) (hub s) (others s) (reg s) (pres s) (bsub s) (jobs s) (gconn s) (gsub s) (trace s) (thr s) (next_ext s) (next_int s) (panicked s) (wclosed s) (hreg s) v (gst s).
 Definition set_gst (v : gen -> gstate) (s : st) : st :=
-  mkSt (status s) (authed s) (closing s) (chans s) (genctr s) (gclosed s) (cmu s) (pmu s) (pinfl s) (kstarted s) (slock s) (hub s) (others s) (reg s) (pres s) (bsub s) (jobs s) (gconn s) (gsub s) (trace s) (thr s) (next_ext s) (next_int s) (panicked s) (wclosed s) v.
+  mkSt (status s) (authed s) (closing s) (chans s) (genctr s) (gclosed s) (cmu s) (pmu s) (pinfl s) (kstarted s) (slock s) (hub s) (others s) (reg s) (pres s) (bsub s) (jobs s) (gconn s) (gsub s) (trace s) (thr s) (next_ext s) (next_int s) (panicked s) (wclosed s) (hreg s) (shut s) v.
 
 Definition init : st :=
   mkSt Connecting false false [] 0 (fun _ => false) false false false false
        (fun _ => false) (fun _ => None) (fun _ => 0) false
        (fun _ => false) (fun _ => false) [] 0%Z (fun _ => 0%Z)
-       [] (fun _ => None) 0 0 false false (fun _ => GNone).
+       [] (fun _ => None) 0 0 false false false false (fun _ => GNone).
 
 (* ---- helpers ---- *)
 Definition thr_set (t : tid) (th : thread) (s : st) : st := set_thr (upd (thr s) t (Some th)) s.
@@ -432,7 +438,7 @@ Definition u_step (s : st) (t : tid) (u : urec) (b : bool) : option (st * option
   | UHubRem =>
       if slock s c then None else Some (hubrem c (u_rm u) s, Some (with_upc u UHandler))
   | UHandler =>
-      let s1 := if c_sub (u_ctx u) then log (EvUnsubCb c (u_rm u)) s else s in
+      let s1 := if c_sub (u_ctx u) && hreg s then log (EvUnsubCb c (u_rm u)) s else s in
       Some (set_gst1 (u_rm u) GDead s1, None)
   end.
 
@@ -505,7 +511,7 @@ Definition tck_step (s : st) (t : tid) (k : trec) (b : bool) : option st :=
   | TSnap =>
       if is_closed (status s) then Some (thr_del t (set_pinfl false (set_pmu false s)))
       else go (mkT TAlive (pres_items (chans s)) [] []) s
-  | TAlive => go (mkT TCheck (t_todo k) (t_added k) []) (log EvAliveCb s)
+  | TAlive => go (mkT TCheck (t_todo k) (t_added k) []) (if hreg s then log EvAliveCb s else s)
   | TCheck =>
       match t_todo k with
       | [] => go (mkT TComp [] (t_added k) []) s
@@ -541,8 +547,11 @@ Definition con_step (s : st) (t : tid) (pc : kpc) (b : bool) : option st :=
       else go KFinal (set_reg true (set_authed true (if reg s then s else set_gconn (gconn s + 1)%Z s)))
   | KFinal => if is_closed (status s) then Some (thr_del t s) else go KTrigLock s
   | KTrigLock => if cmu s then None else go KTrigCheck (set_cmu true s)
-  | KTrigCheck => if is_connecting (status s) then go KHandler s else Some (thr_del t (set_cmu false s))
-  | KHandler => go KSet (log EvConnectCb s)
+  | KTrigCheck => if is_connecting (status s) then go KEnter s else Some (thr_del t (set_cmu false s))
+  (* the OnConnect handler starts: it registers the per-connection handlers (OnSubscribe, OnUnsubscribe,
+     OnDisconnect, OnAlive), which is what enables every other callback *)
+  | KEnter => go KHandler (set_hreg true (log EvConnectCb s))
+  | KHandler => go KSet s
   | KSet => Some (thr_del t (set_cmu false (set_status Connected s)))
   end.
 
@@ -583,7 +592,7 @@ Definition other_rem (s : st) (c : ch) : option st :=
 Inductive op :=
 | OSubCli (c : ch) (o : opts) | OSubSrv (c : ch) (o : opts)
 | OUnsubCli (c : ch) | OUnsubSrv (c : ch)
-| OClose | OTick | OConnect.
+| OClose | OTick | OConnect | OShutdown.
 
 Definition new_att (c : ch) (k : akind) (o : opts) : thread :=
   TAtt (mkAtt c k o PReserve 0 0 false None false false).
@@ -596,13 +605,15 @@ Definition spawn (s : st) (o : op) : option st :=
   let s1 := set_next_ext (next_ext s + 1) s in
   let cli_ok := authed s && negb (is_closed (status s)) in
   match o with
-  | OSubCli c oo => if cli_ok then Some (thr_set t (new_att c Cli oo) s1) else None
+  | OSubCli c oo => if cli_ok && hreg s then Some (thr_set t (new_att c Cli oo) s1) else None
   | OSubSrv c oo => if reg s then Some (thr_set t (new_att c Srv oo) s1) else None
   | OUnsubCli c => if cli_ok then Some (thr_set t (TUns (new_u c USnap)) s1) else None
   | OUnsubSrv c => if reg s then Some (thr_set t (TUns (new_u c UStart)) s1) else None
   | OClose => Some (thr_set t new_close s1)
   | OTick => if authed s then Some (thr_set t (TTck (mkT TCas [] [] [])) s1) else None
   | OConnect => if kstarted s then None else Some (thr_set t (TCon KCheck) (set_kstarted true s1))
+  (* Node.Shutdown: flag, then hub.shutdown closes every registered connection (snapshot) *)
+  | OShutdown => Some (set_shut true (if reg s then spawn_int new_close s1 else s1))
   end.
 
 Inductive label :=
@@ -677,15 +688,15 @@ Definition delivered (s : st) (c : ch) : N := match hub s c with Some _ => 1 | N
 Inductive gk := GkSubH | GkBrokerSub | GkPresAdd | GkPresRem | GkJoin | GkLeave | GkUnsubH
               | GkTransport | GkDiscH | GkAliveH | GkConnH | GkBrokerUnsub.
 
-Definition u_gate (u : urec) : option gk :=
+Definition u_gate (s : st) (u : urec) : option gk :=
   match u_pc u with
   | UPres => if c_sub (u_ctx u) && o_pres (c_opts (u_ctx u)) then Some GkPresRem else None
   | ULeave => if c_sub (u_ctx u) && o_jl (c_opts (u_ctx u)) then Some GkLeave else None
-  | UHandler => if c_sub (u_ctx u) then Some GkUnsubH else None
+  | UHandler => if c_sub (u_ctx u) && hreg s then Some GkUnsubH else None
   | _ => None
   end.
 
-Definition gate_of (th : thread) : option gk :=
+Definition gate_of (s : st) (th : thread) : option gk :=
   match th with
   | TAtt a =>
       match a_pc a with
@@ -697,17 +708,17 @@ Definition gate_of (th : thread) : option gk :=
       | PJoin => if o_jl (a_opts a) then Some GkJoin else None
       | _ => None
       end
-  | TUns u => u_gate u
+  | TUns u => u_gate s u
   | TCls k =>
       match k_pc k with
       | CTransport => Some GkTransport
-      | CLoop => match k_cur k with Some u => u_gate u | None => None end
+      | CLoop => match k_cur k with Some u => u_gate s u | None => None end
       | CDisc => if is_connected (k_prev k) then Some GkDiscH else None
       | _ => None
       end
   | TTck k =>
       match t_pc k with
-      | TAlive => Some GkAliveH
+      | TAlive => if hreg s then Some GkAliveH else None
       | TAdd => Some GkPresAdd
       | TCompRem => match t_rem k with _ :: _ => Some GkPresRem | [] => None end
       | _ => None
